@@ -154,7 +154,10 @@ def gen_api(rng, prof=None):
     cx.files = files
     common = main
     if cx.chance("p_second_file"):
-        common = {"name": f"{pdir}/{rng.choice(p.get('common_file_names') or ['resources'])}.proto", "package": pkg,
+        cfn = rng.choice(p.get('common_file_names') or ['resources'])
+        if cfn == "<noun>":
+            cfn = "__NOUN__"
+        common = {"name": f"{pdir}/{cfn}.proto", "package": pkg,
                   "messages": [], "enums": [], "role": "common"}
         files.insert(0, common)
 
@@ -175,6 +178,8 @@ def gen_api(rng, prof=None):
 
     nres = rng.randint(*p["resources"])
     nouns = rng.sample(NOUNS, nres)
+    if common is not main and "__NOUN__" in common["name"]:
+        common["name"] = common["name"].replace("__NOUN__", nouns[0].lower())     # e.g. widget.proto defining Widget
     services = []
     svc_names = [name.capitalize() + "Service"]
     if cx.chance("p_two_services"):
@@ -241,6 +246,24 @@ def gen_api(rng, prof=None):
                     and m["output"] != ".google.longrunning.Operation" and not m.get("own_mixin_name")), None)
         if src is not None and all(m["name"] != src["name"] for m in services[1]["methods"]):
             twin = copy.deepcopy(src)
+            req = _lookup_msg(cx, src["input"])
+            if req is not None and len(req["fields"]) > 1 and rng.random() < 0.6 and not src.get("routing"):
+                # a different request type with the same NUMBER of fields (one non-path field renamed)
+                pv = set()
+                import re as _re
+                for b in ([src["http"]] + list(src["http"].get("additional", ()))) if src.get("http") else []:
+                    pv |= {v.split(".")[0] for v in _re.findall(r"\{([^}=]+)", b["path"])}
+                    if b.get("body") and b["body"] != "*":
+                        pv.add(b["body"])
+                sigf = {x.split(".")[0] for sg in src.get("signatures", []) for x in sg.split(",")}
+                cand = [f for f in req["fields"] if f["name"] not in pv and f["name"] not in sigf and not f.get("oneof")]
+                if cand and not any(mm["name"] == src["name"] + "AdminRequest" for mm in main["messages"]):
+                    alt = copy.deepcopy(req)
+                    alt["name"] = src["name"] + "AdminRequest"
+                    vic = next(f for f in alt["fields"] if f["name"] == cand[-1]["name"])
+                    vic["name"] = vic["name"] + "_alt"
+                    main["messages"].append(alt)
+                    twin["input"] = P + "." + alt["name"]
             if "http" in twin:
                 twin["http"]["path"] = twin["http"]["path"].replace("/v", "/admin/v", 1)
                 for a in twin["http"].get("additional", ()):
@@ -652,6 +675,17 @@ def _gen_lro_variant(cx, pkg, main, svc, noun, res):
     if cx.chance("p_signature"):
         m["signatures"] = ["name"]
     svc["methods"].append(m)
+    if rng.random() < 0.3 and _unique_method(svc, f"Replace{noun}"):
+        # a SECOND long-running method with the same (response, metadata) pair whose flattened parameter is a message
+        # field named like the resource (and, with common_file_names, like the proto module that defines it)
+        low = noun.lower()
+        _msg(main, f"Replace{noun}Request", [{"name": "parent", "number": 1, "type": "string", "required": True},
+                                               {"name": low, "number": 2, "type": "message", "type_name": P + "." + noun}])
+        m2 = {"name": f"Replace{noun}", "input": f"{P}.Replace{noun}Request", "output": ".google.longrunning.Operation",
+              "lro": dict(m["lro"]), "signatures": [f"parent,{low}"]}
+        if cx.chance("p_http"):
+            m2["http"] = {"verb": "post", "path": f"{_path_prefix(cx)}/{{parent={_wild(res['parent_pattern'])}}}/{res['coll']}:replace", "body": low}
+        svc["methods"].append(m2)
 
 
 def _lookup_msg(cx, type_name):
